@@ -225,11 +225,7 @@ func (fr *Frame) builtin(st *State, b *ssa.Builtin, c *ssa.CallCommon, args []Va
 		newLen := vc.define("applen", "Int", tAdd(s.S[2], addLen))
 		fits := vc.define("appfits", "Bool", tLe(newLen, s.S[3]))
 		// case A: in place; case B: fresh array with copied prefix
-		r := vc.fresh("ref.append", "Int")
-		ak := vc.allocKey()
-		a := vc.get(st, ak)
-		vc.assume(st, tAnd(tLt("0", r), tNot(tSel(a, r)), tEq(sx("dtype", r), tInt(int64(vc.p.typeID(s.T))))))
-		vc.set(st, ak, tSto(a, r, tTrue))
+		r := vc.newObject(st, "append", s.T, nil)
 		ncap := vc.fresh("cap.append", "Int")
 		vc.assume(st, tLe(newLen, ncap))
 		resRef := tIte(fits, s.S[0], r)
